@@ -25,6 +25,20 @@ from . import sym as S
 from .symarray import SymArray, _np_where, apply_ufunc, lift_array
 
 
+def true_root(arr):
+    """the array that owns the memory: follows .base through views AND through numpy's as_strided helper objects
+    (whose result has a DummyArray base that in turn refers to the original array)"""
+    root = arr
+    while True:
+        b = root.base
+        if isinstance(b, np.ndarray) and b.dtype == root.dtype:
+            root = b
+        elif b is not None and type(b).__name__ == "DummyArray" and isinstance(getattr(b, "base", None), np.ndarray) and b.base.dtype == root.dtype:
+            root = b.base
+        else:
+            return root
+
+
 class Mem:
     """root buffer of a bound array, flat"""
 
@@ -33,9 +47,7 @@ class Mem:
     def __init__(self, name, arr):
         if not isinstance(arr, np.ndarray):
             raise S.SymError(f"kernel argument {name} is not an ndarray: {type(arr)}")
-        root = arr
-        while isinstance(root.base, np.ndarray):
-            root = root.base
+        root = true_root(arr)
         isz = arr.itemsize
         self.name = name
         self.root = root
@@ -347,7 +359,12 @@ def hazards_of(frame):
     return out
 
 
+FORCE_SEQUENTIAL = [None]  # None | "fwd" | "rev": interpret every kernel cell by cell (schedule-dependence demos)
+
+
 def run_kernel(handle, kwargs):
+    if FORCE_SEQUENTIAL[0]:
+        return run_sequential(handle, kwargs, reverse=(FORCE_SEQUENTIAL[0] == "rev"))
     body = handle.kernel.body
     ndim = _loop_depth(body)
     # snapshot of object memory for the sequential fallback
@@ -383,9 +400,7 @@ def run_numeric(handle, kwargs):
     roots = {}
     for k, v in kwargs.items():
         if isinstance(v, np.ndarray):
-            root = v
-            while isinstance(root.base, np.ndarray):
-                root = root.base
+            root = true_root(v)
             key = id(root)
             if key not in roots:
                 roots[key] = (root, constant(root))
